@@ -1289,12 +1289,32 @@ pub fn generate(ctx: &Ctx, prop: &str, rng: &mut Rng64, thorough: bool, index: u
             // that differ in castling rights / en-passant square, unrelated positions) must not
             // change a single event of a single-worker search
             case.dims = (8, 1024);
-            let base = if rng.chance(500) { Pos::from_fen(rng.pick(corpus::RIGHTS)).unwrap() } else { corpus::tb_win_in(rng, &ctx.tb, 3) };
+            let base = if rng.chance(700) {
+                // a position that has lost castling rights it could physically still have
+                let full = Pos::from_fen(rng.pick(corpus::RIGHTS)).unwrap();
+                let fewer: Vec<Pos> = corpus::siblings(&full).into_iter().filter(|q| q.castling & !full.castling == 0 && q.castling != full.castling && q.ep == full.ep).collect();
+                if fewer.is_empty() {
+                    full
+                } else {
+                    rng.pick(&fewer).clone()
+                }
+            } else {
+                corpus::tb_win_in(rng, &ctx.tb, 3)
+            };
             let mut irrelevant: Vec<String> = Vec::new();
-            for sib in corpus::siblings(&base).into_iter().take(3) {
-                // a sibling with *more* rights or another en-passant state can never be reached from `base`
-                if sib.castling & !base.castling != 0 || (sib.ep.is_some() && sib.ep != base.ep) {
-                    irrelevant.push(sib.fen());
+            // the position itself and positions a move or two on, each with a castling right
+            // *more* than it has (or an en-passant square it does not have): rights are never
+            // regained, so none of these can occur in the search
+            let mut around = vec![base.clone()];
+            for _ in 0..3 {
+                let k = 1 + rng.below(2) as u32;
+                around.push(corpus::random_play(rng, &base, k).0);
+            }
+            for q in &around {
+                for sib in corpus::siblings(q) {
+                    if sib.castling & !q.castling != 0 && sib.ep == q.ep && irrelevant.len() < 6 {
+                        irrelevant.push(sib.fen());
+                    }
                 }
             }
             // positions with more men than `base` cannot be reached either
